@@ -19,6 +19,7 @@ Oracle : the worker survives (no signal, no sanitizer report); the call in which
          the allocation index of every live block) and the hook never sees a free of a pointer it does not own (double
          free); a fault-free run (k = N+1) leaves nothing behind; after all faults a clean run still succeeds.
 """
+import re
 import threading
 
 from hypothesis import strategies as st
@@ -41,7 +42,9 @@ RICH = '''<mujoco><compiler autolimits="true"/><size memory="1M"/>
 <actuator><muscle name="mu" tendon="tn"/><position joint="h" kp="10"/><general joint="h2" dyntype="filter" dynprm="0.1"/></actuator>
 <sensor><jointpos joint="h"/><touch site="s2"/></sensor>
 <keyframe><key name="k" qpos="0 0 .5 1 0 0 0 .1 .1"/></keyframe></mujoco>'''
+RICH_SERIAL = RICH.replace('<compiler autolimits="true"/>', '<compiler autolimits="true" usethread="false"/>')
 SCENARIOS = ('lifecycle', 'file', 'spec', 'vfs', 'visual')
+KNOWN_THREAD = 'C21:compile-pool-thread-longjmp-through-uninitialised-jmp_buf'
 
 
 def judge(ck, job, r, final=False):
@@ -101,7 +104,7 @@ def main(ck):
                     'allocations of the compiler and parser are out of scope',
                     'leaks are judged after the scenario deleted every handle it obtained and called mj_freeLastXML; an '
                     'mjData that an mju_error unwound is reset (mj_resetData) and deleted']
-  models = [('simple', SIMPLE), ('rich', RICH)]
+  models = [('simple', SIMPLE), ('rich', RICH_SERIAL), ('rich-threaded', RICH)]
   gen = []
   ck.run_hypothesis(lambda gm: gen.append(gm), mg.models(max_bodies=4, sensors=True, mocap=True, keyframes=True),
                     ck.budget(2, 40), name='models')
@@ -113,6 +116,8 @@ def main(ck):
   base = []
   for mname, xml in models:
     for sc in SCENARIOS:
+      if mname == 'rich-threaded' and sc != 'lifecycle':
+        continue      # multi-threaded mesh/texture compilation: one scenario is enough to exhibit the known crash
       base.append(dict(scenario=sc, model=xml, model_name=mname, variant='asan'))
       if mname in ('simple', 'rich'):
         base.append(dict(scenario=sc, model=xml, model_name=mname, variant='rel'))
@@ -139,11 +144,16 @@ def main(ck):
 
   def death(job, res):
     j = res.get('journal') or {}
+    fp = None
+    rep = (res['report'] or '') + (res['stderr'] or '')
+    if job['model_name'] == 'rich-threaded' and res['kind'].startswith('SEGV') and re.search(r' T[1-9]\d*\)', rep) \
+        and j.get('phase') == 'single-fault':
+      fp = KNOWN_THREAD     # crash on a compile pool thread (not T0) while an allocation fault is armed
     ck.violation('%s/%s [%s build] %s: worker process died (%s, rc=%s) @ %s\n%s' % (
         job['scenario'], job['model_name'], job['variant'], {k: j.get(k) for k in ('phase', 'k', 'seed', 'den')},
         res['kind'], res['rc'], res['frame'], (res['report'] or res['stderr'])[:3000]),
         dict(job={k: v for k, v in job.items() if k != 'ks'}, journal=j, report=(res['report'] or '')[:6000]),
-        bucket='death:%s:%s' % (res['kind'], res['frame']))
+        bucket='death:%s:%s' % (res['kind'], res['frame']), fingerprint=fp)
     ck.case(nontrivial=True, key=('death', job['scenario'], job['model_name'], job['variant'], j.get('k'), j.get('seed')),
             labels=['variant=' + job['variant'], 'outcome:process-death'])
     return j
@@ -172,6 +182,10 @@ def main(ck):
     counts['%s/%s/%s' % (b['scenario'], b['model_name'], b['variant'])] = N
     ks = list(range(1, N + 2))
     nmulti = 6 if ck.quick else 40
+    if b['model_name'] == 'rich-threaded':
+      # every fault inside the threaded asset compilation kills the process (known finding): a few positions only
+      ks, nmulti = [1, 2, 3, N + 1], 0
+      ck.extra['rich_threaded_positions'] = ks
     multi = [[1000 * ck.seed + 17 * i + 1, [2, 3, 5, 8][i % 4]] for i in range(nmulti)]
     todo.append(dict(b, mode='faults', ks=ks, multi=multi, N=N))
   ck.extra['allocations_per_scenario'] = counts
